@@ -31,7 +31,9 @@ import (
 
 const (
 	ctxURL  = "https://verif.example/c20/v1"
+	ctxURL2 = "https://verif.example/c20/v2"
 	vocab   = "https://verif.example/c20#"
+	vocab2  = "https://verif.example/c20-other#"
 	vcIRI   = "https://www.w3.org/2018/credentials#VerifiableCredential"
 	nAttrs  = 8
 	baseSec = 1577836800 // 2020-01-01T00:00:00Z; issuanceDate = base + index identifies the holder's credential
@@ -52,6 +54,10 @@ func typeName(t int) string {
 func schemaURI(t int) string {
 	if t == 1 {
 		return vcIRI
+	}
+
+	if t == 12 || t == 14 { // what the second context makes of the terms T2 and T4
+		return vocab2 + "T" + strconv.Itoa(t-10)
 	}
 
 	return vocab + "T" + strconv.Itoa(t)
@@ -105,7 +111,20 @@ func newEnv() *env {
 	content, err := json.Marshal(map[string]interface{}{"@context": terms})
 	must(err)
 
-	loader, err := testutil.DocumentLoader(ldcontext.Document{URL: ctxURL, Content: content})
+	// the second context: the same terms; T2 and T4 stand for other IRIs, T3 for the same one
+	terms2 := map[string]interface{}{}
+	for k, v := range terms {
+		terms2[k] = v
+	}
+
+	terms2["T2"] = vocab2 + "T2"
+	terms2["T4"] = vocab2 + "T4"
+
+	content2, err := json.Marshal(map[string]interface{}{"@context": terms2})
+	must(err)
+
+	loader, err := testutil.DocumentLoader(ldcontext.Document{URL: ctxURL, Content: content},
+		ldcontext.Document{URL: ctxURL2, Content: content2})
 	must(err)
 
 	ed, err := sigutil.NewSigner(kms.ED25519Type)
@@ -175,6 +194,9 @@ func didOf(n int) string { return "did:ex:" + strconv.Itoa(n) }
 
 func credContexts(c Cred) []interface{} {
 	out := []interface{}{verifiable.ContextURI, ctxURL}
+	if c.Ctx == 2 {
+		out[1] = ctxURL2
+	}
 
 	for _, p := range c.Proofs {
 		if p == 3 {
@@ -637,6 +659,14 @@ func (e *env) projectCred(raw interface{}) (Cred, int, error) {
 	c := Cred{SD: isSD}
 	if isJWT {
 		c.JWT = 1
+	}
+
+	if ctxs, ok := m["@context"].([]interface{}); ok {
+		for _, x := range ctxs {
+			if x == ctxURL2 {
+				c.Ctx = 2
+			}
+		}
 	}
 
 	if id, ok := m["id"].(string); ok {
